@@ -60,6 +60,10 @@ pub enum JobKind {
     Walk { depth: u32, budget: u64 },
     /// one random game with shuffles and take-backs
     Game { stream: u64, max_plies: u32 },
+    /// one game of more than a thousand plies (mostly quiet piece moves), then everything is
+    /// taken back to the root: bounded buffers, counters and undo records far beyond the length
+    /// of any game the other jobs play
+    Marathon { stream: u64, plies: u32 },
 }
 
 #[derive(Clone, Debug)]
@@ -221,6 +225,10 @@ struct Counters {
     takebacks: u64,
     shuffles: u64,
     games: u64,
+    marathons: u64,
+    marathon_unmakes_in_a_row: u64,
+    longest_placement: u64,
+    placements_over_64: u64,
     max_ply: u64,
     max_half: u64,
 }
@@ -253,12 +261,18 @@ impl Counters {
             ("takebacks", self.takebacks),
             ("shuffles", self.shuffles),
             ("games", self.games),
+            ("marathon_games", self.marathons),
+            ("fens_with_placement_text_over_64_chars", self.placements_over_64),
         ] {
             if v > 0 {
                 out::count(&format!("{p}.{k}"), v);
             }
         }
         out::set_max(&format!("{p}.max_game_ply"), self.max_ply);
+        out::set_max(&format!("{p}.max_unmakes_in_a_row"), self.marathon_unmakes_in_a_row);
+        if self.longest_placement > 0 {
+            out::set_max(&format!("{p}.max_placement_text_chars"), self.longest_placement);
+        }
         out::set_max(&format!("{p}.max_halfmove_clock"), self.max_half);
     }
 }
@@ -992,6 +1006,11 @@ impl<'a> Lock<'a> {
         if q.castle != 0 || q.ep >= 0 || q.half != 0 || q.full != 1 {
             self.g.mark_nontrivial(&q.ident(), (u64::from(q.half) << 20) | u64::from(q.full) | (u64::from(fen.split(' ').count() as u8) << 40));
         }
+        let placement_len = fen.split(' ').next().map_or(0, str::len) as u64;
+        self.local.longest_placement = self.local.longest_placement.max(placement_len);
+        if placement_len > 64 {
+            self.local.placements_over_64 += 1;
+        }
         if out::want_sample() && self.local.fen_reloads % 501 == 1 {
             out::sample(format!("C07 FEN: {fen}"));
         }
@@ -1215,6 +1234,78 @@ impl<'a> Lock<'a> {
         self.at_node();
     }
 
+    /// A very long game and its complete take-back. Monitors run at sparse nodes and densely
+    /// around round game lengths (multiples of 256 and of 500 plies).
+    fn marathon(&mut self, stream: u64, target: u32, seed: u64) {
+        let mut rng = Rng::derive(seed, 0x3A2A_0000 + stream);
+        self.live_queries = stream % 2 == 1;
+        self.local.marathons += 1;
+        let probe_every = 16 + rng.below(17) as usize;
+        let dense = |len: usize| (len + 2) % 256 < 5 || (len + 2) % 500 < 5;
+        let root = self.b.clone();
+        let mut snaps: Vec<(usize, Board)> = Vec::new();
+        while self.path.len() < target as usize && self.nodes < self.budget {
+            let len = self.path.len();
+            if len % probe_every == 0 || dense(len) {
+                if matches!(self.prop, Prop::C01 | Prop::C02 | Prop::C04) {
+                    self.walk(1);
+                } else {
+                    self.at_node();
+                }
+            }
+            if self.prop == Prop::C02 && len % 64 == 0 {
+                snaps.push((len, self.b.clone()));
+            }
+            let moves = self.p().legal_moves();
+            if moves.is_empty() {
+                break;
+            }
+            let quiet = Self::reversible(self.p());
+            let m = if !quiet.is_empty() && rng.chance(15, 16) { *rng.pick(&quiet) } else { self.choose(&mut rng, &moves) };
+            if !self.step(&m) {
+                break;
+            }
+        }
+        self.at_node();
+        if self.prop == Prop::C03 {
+            return;
+        }
+        // everything back, in one go
+        let mut in_a_row = 0u64;
+        while !self.path.is_empty() {
+            self.pop();
+            in_a_row += 1;
+            let len = self.path.len();
+            if self.prop == Prop::C02 {
+                if let Some((l, snap)) = snaps.last() {
+                    if *l == len {
+                        self.local.evals += 1;
+                        if self.b != *snap {
+                            let d = Self::board_diff(&self.b, snap);
+                            self.viol(
+                                &format!("long-takeback-{}", Self::diff_sig(&d)),
+                                format!("after {in_a_row} take-backs in a row the position at ply {len} is not what it was when first reached: {d}"),
+                            );
+                        }
+                        snaps.pop();
+                    }
+                }
+            }
+            if len % (probe_every * 4) == 0 || dense(len) {
+                if matches!(self.prop, Prop::C01 | Prop::C02 | Prop::C04) {
+                    self.walk(1);
+                } else {
+                    self.at_node();
+                }
+            }
+        }
+        self.local.marathon_unmakes_in_a_row = self.local.marathon_unmakes_in_a_row.max(in_a_row);
+        if self.prop == Prop::C02 && self.b != root {
+            let d = Self::board_diff(&self.b, &root);
+            self.viol(&format!("long-takeback-root-{}", Self::diff_sig(&d)), format!("after taking back the whole game ({in_a_row} plies) the root position differs: {d}"));
+        }
+    }
+
     fn reversible(p: &Pos) -> Vec<Mv> {
         p.legal_moves()
             .into_iter()
@@ -1348,9 +1439,22 @@ pub fn plan(prop: Prop, tier: &str, seed: u64) -> Result<Plan, String> {
     }
     let mut rng = Rng::derive(seed, 0xB0A2D);
     for gidx in 0..n_games {
-        let fen = match rng.below(10) {
+        let fen = match rng.below(11) {
             0..=3 => seeds[0].clone(),
             4..=7 => rng.pick(&seeds).clone(),
+            8 => {
+                // crowded position with the longest possible placement text
+                let mut tries = 0;
+                loop {
+                    tries += 1;
+                    if let Some(p) = corpus::random_dense(&mut rng) {
+                        break p.fen();
+                    }
+                    if tries > 400 {
+                        break seeds[0].clone();
+                    }
+                }
+            }
             _ => {
                 // random sparse endgame
                 let mut tries = 0;
@@ -1377,6 +1481,20 @@ pub fn plan(prop: Prop, tier: &str, seed: u64) -> Result<Plan, String> {
         });
         id += 1;
     }
+    // marathons: from the start position and from a few non-terminal seeds
+    let n_marathons = if thorough { 400 } else { 24 };
+    for midx in 0..n_marathons {
+        let fen = if midx % 3 == 0 { seeds[0].clone() } else { rng.pick(&seeds).clone() };
+        jobs.push(Job {
+            id,
+            fen,
+            kind: JobKind::Marathon {
+                stream: midx + 1,
+                plies: 1_030 + rng.below(if midx % 4 == 3 { 1_300 } else { 300 }) as u32,
+            },
+        });
+        id += 1;
+    }
     Ok(Plan {
         jobs,
         per_job_budget: walk_budget,
@@ -1387,6 +1505,7 @@ pub fn run_job(prop: Prop, g: &Global, job: &Job, seed: u64) {
     let budget = match job.kind {
         JobKind::Walk { budget, .. } => budget,
         JobKind::Game { max_plies, .. } => u64::from(max_plies) * 60,
+        JobKind::Marathon { plies, .. } => u64::from(plies) * 40,
     };
     let mut l = match Lock::new(prop, g, job, budget) {
         Ok(l) => l,
@@ -1407,6 +1526,7 @@ pub fn run_job(prop: Prop, g: &Global, job: &Job, seed: u64) {
     match job.kind {
         JobKind::Walk { depth, .. } => l.walk(depth),
         JobKind::Game { stream, max_plies } => l.game(stream, max_plies, seed),
+        JobKind::Marathon { stream, plies } => l.marathon(stream, plies, seed),
     }
     l.local.flush(prop);
     g.nodes.fetch_add(l.nodes, Ordering::Relaxed);
